@@ -2,6 +2,7 @@
 pub mod alloc;
 pub mod eng;
 pub mod fp;
+pub mod fuzzdec;
 pub mod gen;
 pub mod mutate;
 pub mod props;
